@@ -707,6 +707,13 @@ pub fn ndarray_resizes(doc: &J, sink: &mut dyn FnMut(Faulted)) {
         } else if dims.len() == 2 && dims[0] * dims[1] == data.len() {
             let (r, c) = (dims[0], dims[1]);
             let mut shapes = vec![(r + 1, c), (r, c + 1), (r + 1, c + 1), (c, r)];
+            // (same perimeter, another shape)
+            if r > 0 {
+                shapes.push((r - 1, c + 1));
+            }
+            if c > 0 {
+                shapes.push((r + 1, c - 1));
+            }
             if r > 0 {
                 shapes.push((r - 1, c));
             }
@@ -733,9 +740,16 @@ pub fn ndarray_resizes(doc: &J, sink: &mut dyn FnMut(Faulted)) {
 fn small_forms(j: &J) -> Vec<(J, &'static str)> {
     let mut out: Vec<(J, &'static str)> = Vec::new();
     match j {
-        J::Num(_) => {
+        J::Num(n) => {
             out.push((J::Num("0".into()), "0"));
             out.push((J::Num("1".into()), "1"));
+            out.push((J::Num("18446744073709551615".into()), "the largest unsigned 64-bit value"));
+            if let Ok(x) = n.parse::<i64>() {
+                out.push((J::Num((x + 1).to_string()), "itself plus one"));
+                if x > 1 {
+                    out.push((J::Num((x - 1).to_string()), "itself minus one"));
+                }
+            }
         }
         J::Str(_) => out.push((J::Str("\"\"".into()), "empty string")),
         J::Arr(a) => {
@@ -785,7 +799,42 @@ pub fn toplevel_combos(doc: &J, cap: usize, sink: &mut dyn FnMut(Faulted)) {
         Some(J::Obj(m)) if m.len() >= 2 && m.len() <= 6 => m.clone(),
         _ => return,
     };
-    let forms: Vec<Vec<(J, &'static str)>> = members.iter().map(|(_, v)| small_forms(v)).collect();
+    // integer members may also take the lengths of the document's arrays, give or take one
+    let mut lens: Vec<usize> = Vec::new();
+    for (_, v) in &members {
+        let l = match v {
+            J::Arr(a) => Some(a.len()),
+            J::Obj(m) => m.iter().find(|(k, _)| k.trim_matches('"') == "data").and_then(|(_, d)| match d {
+                J::Arr(a) => Some(a.len()),
+                _ => None,
+            }),
+            _ => None,
+        };
+        if let Some(l) = l {
+            for x in [l.saturating_sub(1), l, l + 1] {
+                if !lens.contains(&x) && lens.len() < 4 {
+                    lens.push(x);
+                }
+            }
+        }
+    }
+    let forms: Vec<Vec<(J, &'static str)>> = members
+        .iter()
+        .map(|(_, v)| {
+            let mut f = small_forms(v);
+            if let J::Num(n) = v {
+                if n.parse::<i64>().is_ok() {
+                    for l in &lens {
+                        let cand = J::Num(l.to_string());
+                        if &cand != v && !f.iter().any(|(x, _)| x == &cand) {
+                            f.push((cand, "an array length of the document, give or take one"));
+                        }
+                    }
+                }
+            }
+            f
+        })
+        .collect();
     let radix: Vec<usize> = forms.iter().map(|f| f.len() + 1).collect();
     let total: usize = radix.iter().product();
     let mut emitted = 0usize;
